@@ -42,19 +42,36 @@ fn names_of(z: &ZoneModel) -> Vec<N> {
     v
 }
 
-/// Root-cause signatures (DESIGN Appendix D).
-fn signature(z: &ZoneModel, default: &str) -> String {
+/// Root-cause signatures (DESIGN Appendix D), from the records that were
+/// lost (when the re-read zone is at hand): every lost record must show the
+/// feature, so that another loss in a zone that happens to contain an `@`
+/// label keeps its own signature.
+fn signature_with(z: &ZoneModel, reread: Option<&ZoneModel>, default: &str) -> String {
     let auth_nonroot = z.soa.is_some() && !z.apex.0.is_empty();
-    if auth_nonroot {
+    let lost: Vec<ZRec> = match reread {
+        Some(m2) => {
+            let (a, b) = (z.canonical().2, m2.canonical().2);
+            a.into_iter().filter(|r| !b.contains(r)).collect()
+        }
+        None => z.recs.clone(),
+    };
+    let one = |r: &ZRec| ZoneModel { apex: z.apex.clone(), soa: None, recs: vec![r.clone()] };
+    if auth_nonroot && !lost.is_empty() {
         let at = z.apex.child(b"@");
-        if names_of(z).iter().any(|n| n.lower() == at) {
+        let mentions_at = |r: &ZRec| names_of(&one(r)).iter().any(|n| n.lower() == at);
+        if (reread.is_some() && lost.iter().all(mentions_at)) || (reread.is_none() && lost.iter().any(mentions_at)) {
             return "at-label-relative".to_string();
         }
     }
-    if z.recs.iter().any(|r| !r.wild && r.owner.0.first().map_or(false, |l| l == b"*")) {
+    let star = |r: &ZRec| !r.wild && r.owner.0.first().map_or(false, |l| l == b"*");
+    if !lost.is_empty() && ((reread.is_some() && lost.iter().all(star)) || (reread.is_none() && lost.iter().any(star))) {
         return "star-label-owner".to_string();
     }
     default.to_string()
+}
+
+fn signature(z: &ZoneModel, default: &str) -> String {
+    signature_with(z, None, default)
 }
 
 fn features(z: &ZoneModel, text: &str, out: &mut Outcome) -> bool {
@@ -96,7 +113,7 @@ pub fn roundtrip_zone(z: &Zone, out: &mut Outcome) -> Result<(), (String, String
     };
     let m2 = ZoneModel::from_impl(&z2);
     if m2.canonical() != model.canonical() {
-        return Err((signature(&model, "roundtrip-differs"), diff(&model, &m2, &s1)));
+        return Err((signature_with(&model, Some(&m2), "roundtrip-differs"), diff(&model, &m2, &s1)));
     }
     let s2 = z2.serialise();
     let z3 = match Zone::deserialise(&s2) {
@@ -290,7 +307,7 @@ impl Prop for Ztoz {
         let check = |text: &str, what: &str| -> Result<(), (String, String)> {
             match Zone::deserialise(text) {
                 Ok(zz) if ZoneModel::from_impl(&zz).canonical() == model.canonical() => Ok(()),
-                Ok(zz) => Err((signature(&model, "ztoz-changes-meaning"), format!("{what}: {}", diff(&model, &ZoneModel::from_impl(&zz), text)))),
+                Ok(zz) => Err((signature_with(&model, Some(&ZoneModel::from_impl(&zz)), "ztoz-changes-meaning"), format!("{what}: {}", diff(&model, &ZoneModel::from_impl(&zz), text)))),
                 Err(e) => Err((signature(&model, "ztoz-output-rejected"), format!("{what}: {e:?}\n{text}"))),
             }
         };
